@@ -167,13 +167,14 @@ def generate(ctx, fx, fxpath):
         groups[k] = out
         if k == 2:
             ctx.cov["tempting_strata"] = len(names)
-    caps = {0: 10 ** 9, 1: 220, 2: 380, 3: 80} if quick else {0: 10 ** 9, 1: 4000, 2: 7000, 3: 2500}
+    caps = {0: 10 ** 9, 1: 200, 2: 300, 3: 60} if quick else {0: 10 ** 9, 1: 4000, 2: 7000, 3: 2500}
     sel = []
     for k in sorted(groups):
         sel += groups[k][:caps[k]]
     ctx.cov["selection"] = {("depth<=1", "accepted_unentitled", "tempting_rejected", "rest")[k]: "%d of %d" % (min(len(groups[k]), caps[k]), len(groups[k]))
                             for k in sorted(groups)}
-    behs += [r["h"] for r in sel]
+    # configuration order: the epochs of one chain (family) are verified by one engine in this order within the driver process
+    behs += sorted((r["h"] for r in sel), key=lambda h_: h_["cfg"])
     ctx.cov["generated_descriptions"] = len(allrows)
     ctx.cov["selected_descriptions"] = len(sel)
     ctx.cov["model_accepts"] = sum(1 for r in allrows if r["ca"])
@@ -194,6 +195,9 @@ def normalise(ctx, behs, fxpath):
         for k, v in DEFAULTS.items():
             b.setdefault(k, v)
         b.setdefault("declC", fx[b["cfg"] - 1]["protoC"])
+        for v in b["votes"] + b["cvotes"]:
+            v.setdefault("bk", 0)
+            v.setdefault("ls", 1)
     return behs
 
 
@@ -283,6 +287,11 @@ def run(ctx):
         "VRF/BLS/ECDSA hardness is trusted; BLS rogue-key registration (no proof of possession) is outside the model",
         "certificate rounds: two configurations at round 3 * ACoCHTFrequency on the stub chain (stake look-back set and certificate look-back "
         "set differ in stakes, status and list order); the CertValThreshold consulted is the one DECLARED by the certificate look-back header",
+        "every description is also verified (VerifyHeader, VerifyHeaders always; the other entry points sampled / thorough) against a stub chain "
+        "that ALREADY STORES the honest header of that round (same hash whenever only vote fields differ); acceptance by any variant counts",
+        "epochs: configurations epoch-E1 / epoch-E2 share validator main keys and ONE verifier engine; in E2 validator 1 has a new BLS key and "
+        "validators 2, 3 swapped stakes; E1 headers are verified before E2 headers in the same process (status / kind changes between epochs "
+        "are not modelled: they are masked by the known eligibility defect)",
         "VerifyAcHeader (light-client path) is observed at certificate rounds and judged by the certificate clause only (AcCertificateQuorum)",
         "a proposer with zero seats or of offline/house kind is documented, not alarmed on (the statement only asks that the credential verifies)",
     ]
